@@ -10,6 +10,7 @@ package main
 import (
 	"fmt"
 	"go/ast"
+	"go/constant"
 	"go/importer"
 	"go/parser"
 	"go/printer"
@@ -99,6 +100,7 @@ type walker struct {
 	fd      *ast.FuncDecl
 	stack   []ast.Node
 	aliases map[string]ast.Expr // locals defined once as length arithmetic (`n := len(x)`, `last := len(x) - 1`)
+	pkgInits map[string]ast.Expr // initialisers of the package-level variables of this package
 }
 
 // collectAliases: single-assignment locals whose definition is length arithmetic
@@ -449,6 +451,183 @@ func isSortCall(c *ast.CallExpr) (string, bool) {
 }
 
 // indexClass: the guard class of x[idx], or "" when none is recognised
+// singleDef: the one statement `name := <expr>` of this function that defines the local `name` (nil when it is assigned more than once)
+func (w *walker) singleDef(name string) ast.Expr {
+	var def ast.Expr
+	n := 0
+	ast.Inspect(w.fd.Body, func(nd ast.Node) bool {
+		as, ok := nd.(*ast.AssignStmt)
+		if !ok {
+			return true
+		}
+		for k, l := range as.Lhs {
+			if id, ok := l.(*ast.Ident); ok && id.Name == name {
+				n++
+				if as.Tok == token.DEFINE && len(as.Lhs) == len(as.Rhs) {
+					def = as.Rhs[k]
+				} else {
+					def = nil
+					n += 2
+				}
+			}
+		}
+		return true
+	})
+	if n != 1 {
+		return nil
+	}
+	return def
+}
+
+// condGuarded: is the node on top of the stack dominated by `holds` (body of an if whose condition satisfies it, right operand
+// of &&) or by the refutation of `fails` (after a terminating `if fails`, else-branch, right operand of ||) ?
+func (w *walker) condGuarded(holds, fails func(ast.Expr) bool) bool {
+	var conj func(e ast.Expr, f func(ast.Expr) bool, op token.Token) bool
+	conj = func(e ast.Expr, f func(ast.Expr) bool, op token.Token) bool {
+		switch x := e.(type) {
+		case *ast.ParenExpr:
+			return conj(x.X, f, op)
+		case *ast.BinaryExpr:
+			if x.Op == op {
+				return conj(x.X, f, op) || conj(x.Y, f, op)
+			}
+		}
+		return f(e)
+	}
+	for i := len(w.stack) - 2; i >= 0; i-- {
+		child := w.stack[i+1]
+		switch p := w.stack[i].(type) {
+		case *ast.IfStmt:
+			if p.Body == child && conj(p.Cond, holds, token.LAND) {
+				return true
+			}
+			if p.Else == child && conj(p.Cond, fails, token.LOR) {
+				return true
+			}
+		case *ast.BlockStmt:
+			for _, s := range p.List {
+				if s == child {
+					break
+				}
+				if is, ok := s.(*ast.IfStmt); ok && terminates(is.Body) && conj(is.Cond, fails, token.LOR) {
+					return true
+				}
+			}
+		case *ast.BinaryExpr:
+			if p.Y == child && p.Op == token.LAND && conj(p.X, holds, token.LAND) {
+				return true
+			}
+			if p.Y == child && p.Op == token.LOR && conj(p.X, fails, token.LOR) {
+				return true
+			}
+		case *ast.FuncLit:
+			return false
+		}
+	}
+	return false
+}
+
+// searchIndexClass: `x[i]` where `i := slices.Index…(x, …)` (or strings.Index… for a string) and i is known to be non-negative
+func (w *walker) searchIndexClass(x *ast.IndexExpr, id *ast.Ident, base string) string {
+	call, ok := w.singleDef(id.Name).(*ast.CallExpr)
+	if !ok || len(call.Args) < 2 || exprStr(call.Args[0]) != base {
+		return ""
+	}
+	switch exprStr(call.Fun) {
+	case "slices.Index", "slices.IndexFunc", "strings.Index", "strings.IndexByte", "strings.IndexRune", "strings.IndexAny", "strings.IndexFunc",
+		"strings.LastIndex", "strings.LastIndexByte", "strings.LastIndexAny", "strings.LastIndexFunc":
+	default:
+		return ""
+	}
+	cmp := func(e ast.Expr, ops map[token.Token][]int) bool {
+		be, ok := e.(*ast.BinaryExpr)
+		if !ok || exprStr(be.X) != id.Name {
+			return false
+		}
+		k, ok := intLit(be.Y)
+		if !ok {
+			if u, isU := be.Y.(*ast.UnaryExpr); isU && u.Op == token.SUB {
+				if v, ok2 := intLit(u.X); ok2 {
+					k, ok = -v, true
+				}
+			}
+		}
+		if !ok {
+			return false
+		}
+		for _, want := range ops[be.Op] {
+			if want == k {
+				return true
+			}
+		}
+		return false
+	}
+	holds := func(e ast.Expr) bool { return cmp(e, map[token.Token][]int{token.GEQ: {0}, token.GTR: {-1}, token.NEQ: {-1}}) }
+	fails := func(e ast.Expr) bool { return cmp(e, map[token.Token][]int{token.LSS: {0}, token.LEQ: {-1}, token.EQL: {-1}}) }
+	if w.condGuarded(holds, fails) {
+		return "index found by a search in the same slice, known to be non-negative"
+	}
+	return ""
+}
+
+// subexpIndexClass: `m[v]` where `m := re.FindStringSubmatch(…)` is known to be non-nil and `v` is a package-level variable
+// initialised with `re.SubexpIndex("name")` of the SAME expression, whose constant pattern declares the group `(?P<name>`
+func (w *walker) subexpIndexClass(x *ast.IndexExpr, id *ast.Ident, base string) string {
+	v, ok := w.info.Uses[id].(*types.Var)
+	if !ok || v.Pkg() == nil || v.Parent() != v.Pkg().Scope() {
+		return ""
+	}
+	init := w.pkgInits[v.Name()]
+	ic, ok := init.(*ast.CallExpr)
+	if !ok || len(ic.Args) != 1 {
+		return ""
+	}
+	isel, ok := ic.Fun.(*ast.SelectorExpr)
+	if !ok || isel.Sel.Name != "SubexpIndex" {
+		return ""
+	}
+	re := exprStr(isel.X)
+	name, err := strconv.Unquote(exprStr(ic.Args[0]))
+	if err != nil {
+		return ""
+	}
+	mdef, ok := w.singleDef(base).(*ast.CallExpr)
+	if !ok {
+		return ""
+	}
+	msel, ok := mdef.Fun.(*ast.SelectorExpr)
+	if !ok || msel.Sel.Name != "FindStringSubmatch" || exprStr(msel.X) != re {
+		return ""
+	}
+	// the pattern of `re`: a constant string somewhere in its initialiser
+	declares := false
+	if rinit, ok := w.pkgInits[re]; ok {
+		ast.Inspect(rinit, func(n ast.Node) bool {
+			if e, ok := n.(ast.Expr); ok {
+				if tv, ok := w.info.Types[e]; ok && tv.Value != nil && tv.Value.Kind() == constant.String {
+					if strings.Contains(constant.StringVal(tv.Value), "(?P<"+name+">") {
+						declares = true
+					}
+				}
+			}
+			return true
+		})
+	}
+	if !declares {
+		return ""
+	}
+	isNil := func(op token.Token) func(ast.Expr) bool {
+		return func(e ast.Expr) bool {
+			be, ok := e.(*ast.BinaryExpr)
+			return ok && be.Op == op && exprStr(be.X) == base && exprStr(be.Y) == "nil"
+		}
+	}
+	if w.condGuarded(isNil(token.NEQ), isNil(token.EQL)) {
+		return "index by SubexpIndex of a declared group into the non-nil submatch of the same expression"
+	}
+	return ""
+}
+
 func (w *walker) indexClass(x *ast.IndexExpr) string {
 	base := exprStr(x.X)
 	if c, ok := intLit(x.Index); ok {
@@ -467,6 +646,12 @@ func (w *walker) indexClass(x *ast.IndexExpr) string {
 	id, ok := x.Index.(*ast.Ident)
 	if !ok {
 		return ""
+	}
+	if c := w.searchIndexClass(x, id, base); c != "" {
+		return c
+	}
+	if c := w.subexpIndexClass(x, id, base); c != "" {
+		return c
 	}
 	for i := len(w.stack) - 2; i >= 0; i-- {
 		switch p := w.stack[i].(type) {
@@ -844,6 +1029,21 @@ func main() {
 				Selections: map[*ast.SelectorExpr]*types.Selection{}}
 			conf := types.Config{Importer: imp, Error: func(error) {}}
 			_, _ = conf.Check(d, fset, files, info)
+			pkgInits := map[string]ast.Expr{}
+			for _, f := range files {
+				for _, decl := range f.Decls {
+					if gd, ok := decl.(*ast.GenDecl); ok && gd.Tok == token.VAR {
+						for _, sp := range gd.Specs {
+							vs := sp.(*ast.ValueSpec)
+							if len(vs.Names) == len(vs.Values) {
+								for k, n := range vs.Names {
+									pkgInits[n.Name] = vs.Values[k]
+								}
+							}
+						}
+					}
+				}
+			}
 			commaOk := map[*ast.TypeAssertExpr]bool{}
 			for _, f := range files {
 				ast.Inspect(f, func(n ast.Node) bool {
@@ -907,7 +1107,7 @@ func main() {
 						}
 						return true
 					})
-					w := &walker{info: info, fn: fn, fd: fd, aliases: collectAliases(fd)}
+					w := &walker{info: info, fn: fn, fd: fd, aliases: collectAliases(fd), pkgInits: pkgInits}
 					ast.Inspect(fd.Body, func(n ast.Node) bool {
 						if n == nil {
 							w.stack = w.stack[:len(w.stack)-1]
